@@ -113,7 +113,7 @@ def classify(case, msg):
     return None
 
 
-OPTIONS = gencc.Options()
+OPTIONS = gencc.Options(effects=12, many_params=8)
 
 
 @st.composite
